@@ -16,7 +16,7 @@ from jsim.envs.base import Adapter
 
 N = 9
 FULL = (1 << N) - 1
-BUDGET = 5000000
+BUDGET = 5000  # search nodes (each runs the propagation to a fixed point)
 
 
 def _units() -> List[List[Tuple[int, int]]]:
@@ -44,64 +44,94 @@ def duplicate(board: np.ndarray) -> Optional[str]:
     return None
 
 
+_UNITS_IDX = [[r * N + c for (r, c) in u] for u in UNITS]
+_PEERS = [sorted({j for u in _UNITS_IDX if i in u for j in u} - {i}) for i in range(N * N)]
+
+
 def solve(board: np.ndarray) -> Optional[np.ndarray]:
-    """Deterministic backtracking (most-constrained cell first, digits ascending). A pure function of the board."""
-    g = [[int(board[r, c]) for c in range(N)] for r in range(N)]
-    rowm, colm, boxm = [0] * N, [0] * N, [0] * N
-    empties = []
-    for r in range(N):
-        for c in range(N):
-            d = g[r][c]
-            if d < 0:
-                empties.append((r, c))
-                continue
-            bit = 1 << d
-            b = 3 * (r // 3) + c // 3
-            if (rowm[r] | colm[c] | boxm[b]) & bit:
-                return None
-            rowm[r] |= bit
-            colm[c] |= bit
-            boxm[b] |= bit
+    """Deterministic solver: constraint propagation (a cell with one candidate, a digit with one place in a
+    unit) plus backtracking on the most constrained cell, digits ascending. A pure function of the board;
+    None when there is no solution (or the node budget is exhausted)."""
+    val = [int(x) for x in np.asarray(board).reshape(-1)]
+    cand = [FULL] * (N * N)
     budget = [BUDGET]
 
-    def rec(cells: List[Tuple[int, int]]) -> bool:
-        if not cells:
-            return True
-        budget[0] -= 1
-        if budget[0] < 0:
-            return False
-        best_i, best_m, best_n = -1, 0, 10
-        for i, (r, c) in enumerate(cells):
-            m = FULL & ~(rowm[r] | colm[c] | boxm[3 * (r // 3) + c // 3])
-            n = bin(m).count("1")
-            if n < best_n:
-                best_i, best_m, best_n = i, m, n
-                if n <= 1:
-                    break
-        if best_n == 0:
-            return False
-        r, c = cells[best_i]
-        rest = cells[:best_i] + cells[best_i + 1:]
-        b = 3 * (r // 3) + c // 3
-        for d in range(N):
-            bit = 1 << d
-            if not best_m & bit:
-                continue
-            rowm[r] |= bit
-            colm[c] |= bit
-            boxm[b] |= bit
-            g[r][c] = d
-            if rec(rest):
-                return True
-            rowm[r] &= ~bit
-            colm[c] &= ~bit
-            boxm[b] &= ~bit
-            g[r][c] = -1
-        return False
+    def assign(val: List[int], cand: List[int], i: int, d: int) -> bool:
+        bit = 1 << d
+        val[i] = d
+        cand[i] = 0
+        for p in _PEERS[i]:
+            if val[p] < 0:
+                if cand[p] & bit:
+                    cand[p] &= ~bit
+                    if cand[p] == 0:
+                        return False
+            elif val[p] == d:
+                return False
+        return True
 
-    if not rec(empties):
+    givens = [(i, d) for i, d in enumerate(val) if d >= 0]
+    val = [-1] * (N * N)
+    for i, d in givens:
+        if not (0 <= d < N) or not assign(val, cand, i, d):
+            return None
+
+    def propagate(val: List[int], cand: List[int]) -> bool:
+        changed = True
+        while changed:
+            changed = False
+            for i in range(N * N):
+                if val[i] < 0:
+                    m = cand[i]
+                    if m == 0:
+                        return False
+                    if m & (m - 1) == 0:
+                        if not assign(val, cand, i, m.bit_length() - 1):
+                            return False
+                        changed = True
+            for u in _UNITS_IDX:
+                placed = 0
+                for i in u:
+                    if val[i] >= 0:
+                        placed |= 1 << val[i]
+                for d in range(N):
+                    bit = 1 << d
+                    if placed & bit:
+                        continue
+                    where = [i for i in u if val[i] < 0 and cand[i] & bit]
+                    if not where:
+                        return False
+                    if len(where) == 1:
+                        if not assign(val, cand, where[0], d):
+                            return False
+                        changed = True
+        return True
+
+    def search(val: List[int], cand: List[int]) -> Optional[List[int]]:
+        budget[0] -= 1
+        if budget[0] < 0 or not propagate(val, cand):
+            return None
+        best, best_n = -1, 10
+        for i in range(N * N):
+            if val[i] < 0:
+                n = bin(cand[i]).count("1")
+                if n < best_n:
+                    best, best_n = i, n
+        if best < 0:
+            return val
+        for d in range(N):
+            if cand[best] & (1 << d):
+                v2, c2 = list(val), list(cand)
+                if assign(v2, c2, best, d):
+                    out = search(v2, c2)
+                    if out is not None:
+                        return out
         return None
-    return np.asarray(g, dtype=np.int64)
+
+    out = search(val, cand)
+    if out is None:
+        return None
+    return np.asarray(out, dtype=np.int64).reshape(N, N)
 
 
 class A(Adapter):
